@@ -113,6 +113,195 @@ theorem c13_absent_default (d : List (Val × Val)) (n : Str) (m : FMeta) (dv : V
       (decodeFields henv d fs missing).bind fun rest => .ok ((n, m, dv) :: rest) := by
   simp only [decodeFields, hl]
 
+/-! ### "to that field only": entries of hook-free fields do not depend on the hook environment -/
+
+mutual
+/-- no field of any instance inside carries an `encoding_fn` -/
+def hookFree : Val → Bool
+  | .list xs => hookFreeL xs
+  | .tuple xs => hookFreeL xs
+  | .set xs => hookFreeL xs
+  | .dict _ ps => hookFreeP ps
+  | .inst _ _ fs => hookFreeF fs
+  | _ => true
+def hookFreeL : List Val → Bool
+  | [] => true
+  | x :: xs => hookFree x && hookFreeL xs
+def hookFreeP : List (Val × Val) → Bool
+  | [] => true
+  | (k, v) :: ps => hookFree k && hookFree v && hookFreeP ps
+def hookFreeF : List (Str × FMeta × Val) → Bool
+  | [] => true
+  | (_, m, v) :: fs => m.enc.isNone && hookFree v && hookFreeF fs
+end
+
+variable (henv' : HEnv)
+
+mutual
+theorem encode_env (v : Val) (h : hookFree v = true) : encode henv v = encode henv' v := by
+  match v, h with
+  | .list xs, h => simp only [hookFree] at h; simp only [encode, encodeL_env xs h]
+  | .tuple xs, h => simp only [hookFree] at h; simp only [encode, encodeL_env xs h]
+  | .set xs, h => simp only [hookFree] at h; simp only [encode, encodeL_env xs h]
+  | .dict o ps, h => simp only [hookFree] at h; simp only [encode, encodeP_env ps h]
+  | .inst _ _ fs, h => simp only [hookFree] at h; simp only [encode, toDictL_env fs h]
+  | .none, _ | .bool _, _ | .int _, _ | .float _, _ | .str _, _ | .path _, _ | .enum _ _, _ => simp only [encode]
+theorem encodeL_env (xs : List Val) (h : hookFreeL xs = true) : encodeL henv xs = encodeL henv' xs := by
+  match xs, h with
+  | [], _ => simp only [encodeL]
+  | x :: xs, h =>
+    simp only [hookFreeL, Bool.and_eq_true] at h
+    simp only [encodeL, encode_env x h.1, encodeL_env xs h.2]
+theorem encodeP_env (ps : List (Val × Val)) (h : hookFreeP ps = true) : encodeP henv ps = encodeP henv' ps := by
+  match ps, h with
+  | [], _ => simp only [encodeP]
+  | (k, v) :: ps, h =>
+    simp only [hookFreeP, Bool.and_eq_true] at h
+    simp only [encodeP, encode_env k h.1.1, encode_env v h.1.2, encodeP_env ps h.2]
+theorem toDictL_env (fs : List (Str × FMeta × Val)) (h : hookFreeF fs = true) : toDictL henv fs = toDictL henv' fs := by
+  match fs, h with
+  | [], _ => simp only [toDictL]
+  | (n, m, v) :: fs, h =>
+    simp only [hookFreeF, Bool.and_eq_true] at h
+    have hme : m.enc = none := by simpa using h.1.1
+    have hfe : fieldEnc henv m v = fieldEnc henv' m v := by
+      match v, h.1.2 with
+      | .inst _ _ fs', hv =>
+        simp only [hookFree] at hv
+        simp only [fieldEnc, hme, toDictL_env fs' hv]
+      | .none, hv | .bool _, hv | .int _, hv | .float _, hv | .str _, hv | .path _, hv
+      | .enum _ _, hv | .list _, hv | .tuple _, hv | .set _, hv | .dict _ _, hv =>
+        simp only [fieldEnc, hme, encode_env _ hv]
+    rw [toDictL_cons, toDictL_cons, hfe, toDictL_env fs h.2]
+end
+
+theorem Out.bind_ok_right {α : Type} (x : Out α) : (x.bind fun a => Out.ok a) = x := by cases x <;> rfl
+
+theorem toDictL_append (pre post : List (Str × FMeta × Val)) :
+    toDictL henv (pre ++ post) =
+      (toDictL henv pre).bind fun a => (toDictL henv post).bind fun b => .ok (a ++ b) := by
+  induction pre with
+  | nil => simp [toDictL, Out.bind_ok_right]
+  | cons f pre ih =>
+    obtain ⟨n, m, v⟩ := f
+    rw [List.cons_append, toDictL_cons, toDictL_cons, ih]
+    by_cases hm : m.toDict = true
+    · simp only [hm, Bool.not_true, Bool.false_eq_true, ↓reduceIte]
+      cases fieldEnc henv m v <;> simp only [Out.ok_bind, Out.raise_bind, Out.unmodelled_bind]
+      cases toDictL henv pre <;> simp only [Out.ok_bind, Out.raise_bind, Out.unmodelled_bind]
+      cases toDictL henv post <;> simp [Out.ok_bind, Out.raise_bind, Out.unmodelled_bind]
+    · simp [hm]
+
+/-- **a field's `encoding_fn` touches that field's entry only.**  Take any class whose other fields carry no hook
+    (at any depth) and one written field `n` with a hook; serialize the same instance under two hook environments
+    (e.g. two different functions for that hook): both outputs have the same entries before and after `n` — only the
+    entry of `n` may differ.  Any number of fields, any values. -/
+theorem c13_hook_only_its_field (pre post : List (Str × FMeta × Val)) (n : Str) (m : FMeta) (v : Val)
+    (ps ps' : List (Val × Val)) (hpre : hookFreeF pre = true) (hpost : hookFreeF post = true) (hm : m.toDict = true)
+    (h1 : toDictL henv (pre ++ (n, m, v) :: post) = .ok ps) (h2 : toDictL henv' (pre ++ (n, m, v) :: post) = .ok ps') :
+    ∃ a e e' b, ps = a ++ (.str n, e) :: b ∧ ps' = a ++ (.str n, e') :: b := by
+  rw [toDictL_append, toDictL_cons] at h1 h2
+  rw [← toDictL_env henv henv' pre hpre, ← toDictL_env henv henv' post hpost] at h2
+  simp only [hm, Bool.not_true, Bool.false_eq_true, ↓reduceIte] at h1 h2
+  obtain ⟨a, ha, h1⟩ := Out.bind_eq_ok h1
+  obtain ⟨r, hr, h1⟩ := Out.bind_eq_ok h1
+  obtain ⟨e, _, hr⟩ := Out.bind_eq_ok hr
+  obtain ⟨b, hb, hr⟩ := Out.bind_eq_ok hr
+  rw [ha] at h2
+  simp only [Out.ok_bind] at h2
+  obtain ⟨r', hr', h2⟩ := Out.bind_eq_ok h2
+  obtain ⟨e', _, hr'⟩ := Out.bind_eq_ok hr'
+  rw [hb] at hr'
+  simp only [Out.ok_bind, Out.ok.injEq] at hr hr' h1 h2
+  subst hr hr' h1 h2
+  exact ⟨a, e, e', b, rfl, rfl⟩
+
+mutual
+/-- no class reachable from the annotation has a field with a `decoding_fn` -/
+def decHookFree : FTy → Bool
+  | .list t => decHookFree t
+  | .set t => decHookFree t
+  | .vtuple t => decHookFree t
+  | .tuple ts => decHookFreeL ts
+  | .dict k v => decHookFree k && decHookFree v
+  | .union alts => decHookFreeL alts
+  | .dc _ _ fs => decHookFreeF fs
+  | _ => true
+def decHookFreeL : List FTy → Bool
+  | [] => true
+  | t :: ts => decHookFree t && decHookFreeL ts
+def decHookFreeF : List (Str × FMeta × Option Val × FTy) → Bool
+  | [] => true
+  | (_, m, _, t) :: fs => m.dec.isNone && decHookFree t && decHookFreeF fs
+end
+
+mutual
+theorem decode_env (t : FTy) (h : decHookFree t = true) (raw : Val) : decode henv t raw = decode henv' t raw := by
+  match t, h with
+  | .list t, h =>
+    simp only [decHookFree] at h
+    rw [decode_list, decode_list, funext (decode_env t h)]
+  | .set t, h =>
+    simp only [decHookFree] at h
+    rw [decode_set, decode_set, funext (decode_env t h)]
+  | .vtuple t, h =>
+    simp only [decHookFree] at h
+    rw [decode_vtuple, decode_vtuple, funext (decode_env t h)]
+  | .tuple ts, h =>
+    simp only [decHookFree] at h
+    rw [decode_tuple, decode_tuple]
+    simp only [decodeT_env ts h]
+  | .dict k v, h =>
+    simp only [decHookFree, Bool.and_eq_true] at h
+    rw [decode_dict, decode_dict, funext (decode_env k h.1), funext (decode_env v h.2)]
+  | .union alts, h =>
+    simp only [decHookFree] at h
+    rw [decode_union, decode_union, decodeU_env _ alts h]
+  | .dc c reg fs, h =>
+    simp only [decHookFree] at h
+    rw [decode_dc, decode_dc]
+    have : (fun d => decodeFields henv d fs false) = (fun d => decodeFields henv' d fs false) :=
+      funext fun d => decodeFields_env d fs false h
+    rw [this]
+  | .int, _ => rw [decode_int, decode_int]
+  | .float, _ => rw [decode_float, decode_float]
+  | .str, _ => rw [decode_str, decode_str]
+  | .bool, _ => rw [decode_bool, decode_bool]
+  | .path, _ => rw [decode_path, decode_path]
+  | .enum _ _, _ => rw [decode_enum, decode_enum]
+  | .literal _, _ => rw [decode_literal, decode_literal]
+  | .any, _ => simp only [decode]
+  | .noneT, _ => simp only [decode]
+theorem decodeT_env (ts : List FTy) (h : decHookFreeL ts = true) (xs : List Val) :
+    decodeT henv ts xs = decodeT henv' ts xs := by
+  match ts, xs, h with
+  | _, [], _ => simp only [decodeT]
+  | [], _ :: _, _ => simp only [decodeT]
+  | t :: ts, x :: xs, h =>
+    simp only [decHookFreeL, Bool.and_eq_true] at h
+    simp only [decodeT, decode_env t h.1 x, decodeT_env ts h.2 xs]
+theorem decodeU_env (optional : Bool) (alts : List FTy) (h : decHookFreeL alts = true) (raw : Val) :
+    decodeU henv optional alts raw = decodeU henv' optional alts raw := by
+  match alts, h with
+  | [], _ => simp only [decodeU]
+  | t :: ts, h =>
+    simp only [decHookFreeL, Bool.and_eq_true] at h
+    simp only [decodeU, funext (decode_env t h.1), decodeU_env optional ts h.2 raw]
+theorem decodeFields_env (d : List (Val × Val)) (fs : List (Str × FMeta × Option Val × FTy)) (missing : Bool)
+    (h : decHookFreeF fs = true) : decodeFields henv d fs missing = decodeFields henv' d fs missing := by
+  match fs, h with
+  | [], _ => simp only [decodeFields]
+  | (n, m, dflt, t) :: fs, h =>
+    simp only [decHookFreeF, Bool.and_eq_true] at h
+    have hmd : m.dec = none := by simpa using h.1.1
+    simp only [decodeFields, hmd, decode_env t h.1.2, decodeFields_env d fs missing h.2, decodeFields_env d fs true h.2]
+end
+
+/-- **a `decoding_fn` touches its own field only**: decoding along an annotation that reaches no hooked field does not
+    look at the hook environment -/
+theorem c13_decoding_env_independent (t : FTy) (h : decHookFree t = true) (raw : Val) :
+    decode henv t raw = decode henv' t raw := decode_env henv henv' t h raw
+
 /-! ### primitives only -/
 
 /-- keys whose encoding is a primitive leaf -/
@@ -120,9 +309,38 @@ def keyOk : Val → Bool
   | .none | .bool _ | .int _ | .float _ | .str _ | .path _ | .enum _ _ => true
   | _ => false
 
+/-- what a field's `encoding_fn` returns is accepted when it is made of primitives (the hook's own business otherwise) -/
+def hookPrim (h : Nat) (v : Val) : Bool :=
+  match henv h v with
+  | .ok e => isPrim e
+  | _ => false
+
 mutual
-/-- **InGrammar** on values: no OrderedDict, dict keys are leaves (str/int/float/bool/None/Path/Enum), no field
-    carries an `encoding_fn` (what a user hook returns is the user's business) -/
+/-- **InGrammar** on values, with hooks (`primOkH henv`): no OrderedDict, dict keys are leaves
+    (str/int/float/bool/None/Path/Enum); a WRITTEN field that carries an `encoding_fn` is accepted when the hook
+    answers primitives on the value it is given (`hookPrim`); a field marked `to_dict=False` is accepted whatever it
+    holds and whatever hook it carries (it is never looked at) -/
+def primOkH : Val → Bool
+  | .list xs => primOkHL xs
+  | .tuple xs => primOkHL xs
+  | .set xs => primOkHL xs
+  | .dict ordered ps => !ordered && primOkHP ps
+  | .inst _ _ fs => primOkHF fs
+  | _ => true
+def primOkHL : List Val → Bool
+  | [] => true
+  | x :: xs => primOkH x && primOkHL xs
+def primOkHP : List (Val × Val) → Bool
+  | [] => true
+  | (k, v) :: ps => keyOk k && primOkH v && primOkHP ps
+def primOkHF : List (Str × FMeta × Val) → Bool
+  | [] => true
+  | (_, m, v) :: fs =>
+    (if m.toDict then (match m.enc with | some h => hookPrim henv h v | none => primOkH v) else true) && primOkHF fs
+end
+
+mutual
+/-- the hook-free grammar: as `primOkH`, but no written field carries an `encoding_fn` -/
 def primOk : Val → Bool
   | .list xs => primOkL xs
   | .tuple xs => primOkL xs
@@ -138,7 +356,46 @@ def primOkP : List (Val × Val) → Bool
   | (k, v) :: ps => keyOk k && primOk v && primOkP ps
 def primOkF : List (Str × FMeta × Val) → Bool
   | [] => true
-  | (_, m, v) :: fs => m.enc.isNone && primOk v && primOkF fs
+  | (_, m, v) :: fs => (if m.toDict then m.enc.isNone && primOk v else true) && primOkF fs
+end
+
+mutual
+theorem primOkH_of_primOk (v : Val) (h : primOk v = true) : primOkH henv v = true := by
+  match v, h with
+  | .list xs, h => simp only [primOk] at h; simp only [primOkH]; exact primOkHL_of xs h
+  | .tuple xs, h => simp only [primOk] at h; simp only [primOkH]; exact primOkHL_of xs h
+  | .set xs, h => simp only [primOk] at h; simp only [primOkH]; exact primOkHL_of xs h
+  | .dict o ps, h =>
+    simp only [primOk, Bool.and_eq_true] at h
+    simp only [primOkH, Bool.and_eq_true]; exact ⟨h.1, primOkHP_of ps h.2⟩
+  | .inst _ _ fs, h => simp only [primOk] at h; simp only [primOkH]; exact primOkHF_of fs h
+  | .none, _ | .bool _, _ | .int _, _ | .float _, _ | .str _, _ | .path _, _ | .enum _ _, _ => simp [primOkH]
+theorem primOkHL_of (xs : List Val) (h : primOkL xs = true) : primOkHL henv xs = true := by
+  match xs, h with
+  | [], _ => rfl
+  | x :: xs, h =>
+    simp only [primOkL, Bool.and_eq_true] at h
+    simp only [primOkHL, Bool.and_eq_true]; exact ⟨primOkH_of_primOk x h.1, primOkHL_of xs h.2⟩
+theorem primOkHP_of (ps : List (Val × Val)) (h : primOkP ps = true) : primOkHP henv ps = true := by
+  match ps, h with
+  | [], _ => rfl
+  | (k, v) :: ps, h =>
+    simp only [primOkP, Bool.and_eq_true] at h
+    simp only [primOkHP, Bool.and_eq_true]; exact ⟨⟨h.1.1, primOkH_of_primOk v h.1.2⟩, primOkHP_of ps h.2⟩
+theorem primOkHF_of (fs : List (Str × FMeta × Val)) (h : primOkF fs = true) : primOkHF henv fs = true := by
+  match fs, h with
+  | [], _ => rfl
+  | (n, m, v) :: fs, h =>
+    simp only [primOkF, Bool.and_eq_true] at h
+    simp only [primOkHF, Bool.and_eq_true]
+    refine ⟨?_, primOkHF_of fs h.2⟩
+    by_cases hm : m.toDict = true
+    · have h1 := h.1
+      simp only [hm, ↓reduceIte, Bool.and_eq_true] at h1
+      have hme : m.enc = none := by simpa using h1.1
+      simp only [hm, ↓reduceIte, hme]
+      exact primOkH_of_primOk v h1.2
+    · simp [hm]
 end
 
 theorem key_prim (k : Val) (h : keyOk k = true) :
@@ -169,7 +426,7 @@ theorem fold_prim (qs acc : List (Val × Val)) (ha : isPrimP acc = true) (hq : i
     exact ih _ (isPrimP_insert k v acc hq.1.1 hq.1.2 ha) hq.2 (fun q hq' => hh q (by simp [hq']))
 
 mutual
-theorem prim_enc (v : Val) (h : primOk v = true) : ∃ e, encode henv v = .ok e ∧ isPrim e = true := by
+theorem prim_enc (v : Val) (h : primOkH henv v = true) : ∃ e, encode henv v = .ok e ∧ isPrim e = true := by
   match v, h with
   | .none, _ => exact ⟨.none, by simp [encode], rfl⟩
   | .bool b, _ => exact ⟨.bool b, by simp [encode], rfl⟩
@@ -179,40 +436,40 @@ theorem prim_enc (v : Val) (h : primOk v = true) : ∃ e, encode henv v = .ok e 
   | .path s, _ => exact ⟨.str s, by simp [encode], rfl⟩
   | .enum _ n, _ => exact ⟨.str n, by simp [encode], rfl⟩
   | .list xs, h =>
-    simp only [primOk] at h
+    simp only [primOkH] at h
     obtain ⟨es, h1, h2⟩ := prim_encL xs h
     exact ⟨.list es, by simp [encode, h1], by simp [isPrim, h2]⟩
   | .tuple xs, h =>
-    simp only [primOk] at h
+    simp only [primOkH] at h
     obtain ⟨es, h1, h2⟩ := prim_encL xs h
     exact ⟨.list es, by simp [encode, h1], by simp [isPrim, h2]⟩
   | .set xs, h =>
-    simp only [primOk] at h
+    simp only [primOkH] at h
     obtain ⟨es, h1, h2⟩ := prim_encL xs h
     exact ⟨.list es, by simp [encode, h1], by simp [isPrim, h2]⟩
   | .dict ordered ps, h =>
-    simp only [primOk, Bool.and_eq_true, Bool.not_eq_eq_eq_not, Bool.not_true] at h
+    simp only [primOkH, Bool.and_eq_true, Bool.not_eq_eq_eq_not, Bool.not_true] at h
     obtain ⟨qs, h1, h2, h3⟩ := prim_encP ps h.2
     obtain ⟨acc', h4, h5⟩ := fold_prim qs [] rfl h2 h3
     exact ⟨.dict false acc', by simp [encode, h.1, h1, h4, DAcc.toVal], by simp [isPrim, h5]⟩
   | .inst _ reg fs, h =>
-    simp only [primOk] at h
+    simp only [primOkH] at h
     obtain ⟨qs, h1, h2⟩ := prim_encF fs h
     exact ⟨.dict false qs, by simp [encode, h1], by simp [isPrim, h2]⟩
-theorem prim_encL (xs : List Val) (h : primOkL xs = true) : ∃ es, encodeL henv xs = .ok es ∧ isPrimL es = true := by
+theorem prim_encL (xs : List Val) (h : primOkHL henv xs = true) : ∃ es, encodeL henv xs = .ok es ∧ isPrimL es = true := by
   match xs, h with
   | [], _ => exact ⟨[], by simp [encodeL], rfl⟩
   | x :: xs, h =>
-    simp only [primOkL, Bool.and_eq_true] at h
+    simp only [primOkHL, Bool.and_eq_true] at h
     obtain ⟨e, h1, h2⟩ := prim_enc x h.1
     obtain ⟨es, h3, h4⟩ := prim_encL xs h.2
     exact ⟨e :: es, by simp [encodeL, h1, h3], by simp [isPrimL, h2, h4]⟩
-theorem prim_encP (ps : List (Val × Val)) (h : primOkP ps = true) :
+theorem prim_encP (ps : List (Val × Val)) (h : primOkHP henv ps = true) :
     ∃ qs, encodeP henv ps = .ok qs ∧ isPrimP qs = true ∧ ∀ q ∈ qs, hashable q.1 = true := by
   match ps, h with
   | [], _ => exact ⟨[], by simp [encodeP], rfl, fun _ hq => nomatch hq⟩
   | (k, v) :: ps, h =>
-    simp only [primOkP, Bool.and_eq_true] at h
+    simp only [primOkHP, Bool.and_eq_true] at h
     obtain ⟨k', hk1, hk2, hk3⟩ := key_prim henv k h.1.1
     obtain ⟨e, h1, h2⟩ := prim_enc v h.1.2
     obtain ⟨qs, h3, h4, h5⟩ := prim_encP ps h.2
@@ -221,41 +478,115 @@ theorem prim_encP (ps : List (Val × Val)) (h : primOkP ps = true) :
     rcases List.mem_cons.mp hq with rfl | hq
     · exact hk3
     · exact h5 q hq
-theorem prim_encF (fs : List (Str × FMeta × Val)) (h : primOkF fs = true) :
+theorem prim_encF (fs : List (Str × FMeta × Val)) (h : primOkHF henv fs = true) :
     ∃ qs, toDictL henv fs = .ok qs ∧ isPrimP qs = true := by
   match fs, h with
   | [], _ => exact ⟨[], by simp [toDictL], rfl⟩
   | (n, m, v) :: fs, h =>
-    simp only [primOkF, Bool.and_eq_true] at h
+    simp only [primOkHF, Bool.and_eq_true] at h
     obtain ⟨qs, h1, h2⟩ := prim_encF fs h.2
-    obtain ⟨e, he1, he2⟩ := prim_enc v h.1.2
-    have hme : m.enc = none := by simpa using h.1.1
-    -- the `to_dict` loop: a nested instance goes through `to_dict` again, anything else through `encode`
-    have hfe : ∃ e', fieldEnc henv m v = .ok e' ∧ isPrim e' = true := by
-      match v, h.1.2, he1 with
-      | .inst _ _ fs', hv, _ =>
-        simp only [primOk] at hv
-        obtain ⟨q2, g1, g2⟩ := prim_encF fs' hv
-        exact ⟨.dict false q2, by simp [fieldEnc, hme, g1], by simp [isPrim, g2]⟩
-      | .none, _, he1 | .bool _, _, he1 | .int _, _, he1 | .float _, _, he1 | .str _, _, he1 | .path _, _, he1
-      | .enum _ _, _, he1 | .list _, _, he1 | .tuple _, _, he1 | .set _, _, he1 | .dict _ _, _, he1 =>
-        exact ⟨e, by simp [fieldEnc, hme, he1], he2⟩
-    obtain ⟨e', hf1, hf2⟩ := hfe
     by_cases hm : m.toDict = true
-    · exact ⟨(.str n, e') :: qs, by rw [toDictL_cons]; simp [hm, hf1, h1], by simp [isPrimP, isPrimLeaf, hf2, h2]⟩
+    · have hv := h.1
+      simp only [hm, ↓reduceIte] at hv
+      -- what is written for this field: the hook's answer, the nested `to_dict`, or `encode`
+      have hfe : ∃ e', fieldEnc henv m v = .ok e' ∧ isPrim e' = true := by
+        cases hme : m.enc with
+        | some hk =>
+          simp only [hme, hookPrim] at hv
+          cases hh : henv hk v with
+          | ok e => rw [hh] at hv; exact ⟨e, by simp [fieldEnc, hme, hh], hv⟩
+          | raise _ => rw [hh] at hv; simp at hv
+          | unmodelled _ => rw [hh] at hv; simp at hv
+        | none =>
+          simp only [hme] at hv
+          match v, hv with
+          | .inst _ _ fs', hv =>
+            simp only [primOkH] at hv
+            obtain ⟨q2, g1, g2⟩ := prim_encF fs' hv
+            exact ⟨.dict false q2, by simp [fieldEnc, hme, g1], by simp [isPrim, g2]⟩
+          | .none, hv | .bool _, hv | .int _, hv | .float _, hv | .str _, hv | .path _, hv
+          | .enum _ _, hv | .list _, hv | .tuple _, hv | .set _, hv | .dict _ _, hv =>
+            obtain ⟨e, he1, he2⟩ := prim_enc _ hv
+            exact ⟨e, by simp [fieldEnc, hme, he1], he2⟩
+      obtain ⟨e', hf1, hf2⟩ := hfe
+      exact ⟨(.str n, e') :: qs, by rw [toDictL_cons]; simp [hm, hf1, h1], by simp [isPrimP, isPrimLeaf, hf2, h2]⟩
     · have hm' : m.toDict = false := by simpa using hm
       exact ⟨qs, by rw [toDictL_cons]; simp [hm', h1], h2⟩
 end
 
-/-- **C13 primitives-only**: `to_dict(x)` of every instance of the grammar (any nesting depth; Serializable or
-    plain at every level; any subset of fields hidden) succeeds and is made only of dict / list / str / int /
-    float / bool / None — so no tuple, set, Path, Enum or OrderedDict survives anywhere inside. -/
-theorem c13_prim (x : Val) (c : Str) (reg : Bool) (fs : List (Str × FMeta × Val)) (hx : x = .inst c reg fs)
-    (h : primOk x = true) : ∃ d, toDict henv x = .ok d ∧ isPrim d = true := by
+/-- **C13 primitives-only, with hooks**: `to_dict(x)` of every instance of the grammar (any nesting depth;
+    Serializable or plain at every level; any subset of fields hidden; any subset of written fields given an
+    `encoding_fn` whose answer is made of primitives) succeeds and is made only of dict / list / str / int / float /
+    bool / None — no tuple, set, Path, Enum or OrderedDict survives anywhere inside. -/
+theorem c13_prim_hooks (x : Val) (c : Str) (reg : Bool) (fs : List (Str × FMeta × Val)) (hx : x = .inst c reg fs)
+    (h : primOkH henv x = true) : ∃ d, toDict henv x = .ok d ∧ isPrim d = true := by
   subst hx
-  simp only [primOk] at h
+  simp only [primOkH] at h
   obtain ⟨qs, h1, h2⟩ := prim_encF henv fs h
   exact ⟨.dict false qs, by simp [toDict, toDictF, h1], by simp [isPrim, h2]⟩
+
+/-- the hook-free corollary, for every hook environment -/
+theorem c13_prim (x : Val) (c : Str) (reg : Bool) (fs : List (Str × FMeta × Val)) (hx : x = .inst c reg fs)
+    (h : primOk x = true) : ∃ d, toDict henv x = .ok d ∧ isPrim d = true :=
+  c13_prim_hooks henv x c reg fs hx (primOkH_of_primOk henv x h)
+
+/-- **omits exactly the marked fields — total form**: on the grammar (with hooks) `to_dict`'s loop succeeds and its keys
+    are the fields not marked `to_dict=False`, in field order -/
+theorem c13_omit_total (fs : List (Str × FMeta × Val)) (h : primOkHF henv fs = true) :
+    ∃ ps, toDictL henv fs = .ok ps ∧
+      ps.map Prod.fst = (fs.filter fun f => f.2.1.toDict).map fun f => Val.str f.1 := by
+  obtain ⟨ps, h1, _⟩ := prim_encF henv fs h
+  exact ⟨ps, h1, c13_omit henv fs ps h1⟩
+
+/-! ### "so json.dumps and yaml.safe_dump accept it unaided" -/
+
+theorem yaml_accepts (d : Val) (h : isPrim d = true) : yamlTr d = .ok d := by simp [yamlTr, h]
+
+mutual
+theorem json_accepts (d : Val) (h : isPrim d = true) : ∃ j, jsonTr d = .ok j := by
+  match d, h with
+  | .none, _ => exact ⟨.none, by simp [jsonTr]⟩
+  | .bool b, _ => exact ⟨.bool b, by simp [jsonTr]⟩
+  | .int n, _ => exact ⟨.int n, by simp [jsonTr]⟩
+  | .float r, _ => exact ⟨.float r, by simp [jsonTr]⟩
+  | .str r, _ => exact ⟨.str r, by simp [jsonTr]⟩
+  | .list xs, h =>
+    simp only [isPrim] at h
+    obtain ⟨ys, hy⟩ := json_acceptsL xs h
+    exact ⟨.list ys, by simp [jsonTr, hy]⟩
+  | .dict o ps, h =>
+    simp only [isPrim, Bool.and_eq_true] at h
+    obtain ⟨qs, hq⟩ := json_acceptsP ps h.2
+    exact ⟨.dict false (qs.foldl (fun acc (k, v) => dictInsert k v acc) []), by simp [jsonTr, hq]⟩
+  | .path _, h | .enum _ _, h | .tuple _, h | .set _, h | .inst _ _ _, h => simp [isPrim] at h
+theorem json_acceptsL (xs : List Val) (h : isPrimL xs = true) : ∃ ys, jsonTrL xs = .ok ys := by
+  match xs, h with
+  | [], _ => exact ⟨[], by simp [jsonTrL]⟩
+  | x :: xs, h =>
+    simp only [isPrimL, Bool.and_eq_true] at h
+    obtain ⟨y, hy⟩ := json_accepts x h.1
+    obtain ⟨ys, hys⟩ := json_acceptsL xs h.2
+    exact ⟨y :: ys, by simp [jsonTrL, hy, hys]⟩
+theorem json_acceptsP (ps : List (Val × Val)) (h : isPrimP ps = true) : ∃ qs, jsonTrP ps = .ok qs := by
+  match ps, h with
+  | [], _ => exact ⟨[], by simp [jsonTrP]⟩
+  | (k, v) :: ps, h =>
+    simp only [isPrimP, Bool.and_eq_true] at h
+    obtain ⟨y, hy⟩ := json_accepts v h.1.2
+    obtain ⟨qs, hq⟩ := json_acceptsP ps h.2
+    have hk : ∃ s, jsonKey k = .ok s := by
+      cases k <;> simp [isPrimLeaf] at h <;> simp [jsonKey]
+    obtain ⟨s, hs⟩ := hk
+    exact ⟨(.str s, y) :: qs, by simp [jsonTrP, hs, hy, hq]⟩
+end
+
+/-- **writers accept**: on the grammar (with hooks) the output of `to_dict` is taken by `yaml.safe_dump` /
+    `yaml.dump`+`safe_load` unchanged and by `json.dumps` (model: `yamlTr`, `jsonTr`) -/
+theorem c13_writers_accept (x : Val) (c : Str) (reg : Bool) (fs : List (Str × FMeta × Val)) (hx : x = .inst c reg fs)
+    (h : primOkH henv x = true) :
+    ∃ d, toDict henv x = .ok d ∧ yamlTr d = .ok d ∧ ∃ j, jsonTr d = .ok j := by
+  obtain ⟨d, h1, h2⟩ := c13_prim_hooks henv x c reg fs hx h
+  exact ⟨d, h1, yaml_accepts d h2, json_accepts d h2⟩
 
 /-- the statement for every Python value (no grammar restriction) -/
 def PrimFullStatement : Prop :=
@@ -267,6 +598,24 @@ def h0 : HEnv := fun _ v => .ok v
 theorem c13_tuple_key_witness :
     toDict h0 (.inst ['K'] true [(['d'], FMeta.plain, .dict false [(.tuple [.int 1, .int 2], .str ['a'])])]) =
       .ok (.dict false [(.str ['d'], .list [.tuple [.list [.int 1, .int 2], .str ['a']]])]) := by rfl
+
+/-- open finding: an OrderedDict held by a Dict field (or sitting inside a list) survives: `encode_dict` builds
+    `type(obj)()` — an OrderedDict node in the output, which `yaml.safe_dump` refuses -/
+theorem c13_odict_witness :
+    toDict h0 (.inst ['K'] true [(['d'], FMeta.plain, .dict true [(.str ['a'], .int 1)]),
+                                  (['l'], FMeta.plain, .list [.dict true [(.int 1, .str ['x'])]])]) =
+      .ok (.dict false [(.str ['d'], .dict true [(.str ['a'], .int 1)]),
+                        (.str ['l'], .list [.dict true [(.int 1, .str ['x'])]])]) := by rfl
+
+theorem c13_odict_not_prim :
+    isPrim (.dict false [(.str ['d'], .dict true [(.str ['a'], .int 1)])]) = false ∧
+    yamlTr (.dict false [(.str ['d'], .dict true [(.str ['a'], .int 1)])]) = .raise "ConstructorError".toList := by
+  constructor <;> rfl
+
+theorem c13_prim_full_witness_odict : ¬ PrimFullStatement := by
+  intro h
+  have := h h0 _ _ c13_odict_witness
+  simp [isPrim, isPrimP, isPrimL, isPrimLeaf] at this
 
 theorem c13_prim_full_witness : ¬ PrimFullStatement := by
   intro h
@@ -291,9 +640,6 @@ theorem c13_encode_is_to_dict (c : Str) (reg : Bool) (fs : List (Str × FMeta ×
 
 /-! ### functionality -/
 
-/-- equal values serialize to equal output (the model's functions are functions; hooks are functions) -/
-theorem c13_functional_partial (x y : Val) (h : x = y) : toDict henv x = toDict henv y := by rw [h]
-
 /-- D15: two enumerations of the same set — equal as Python sets — give different lists -/
 theorem c13_set_order_witness :
     encode h0 (.set [.int 0, .int 8]) = .ok (.list [.int 0, .int 8]) ∧
@@ -317,6 +663,27 @@ example :
     decode (fun _ _ => .ok (.int 7)) (.dc ['K'] true [(['o'], { toDict := true, enc := none, dec := some 22 }, none, .union [.int, .noneT])])
       (.dict false [(.str ['o'], .none)]) =
       .ok (.inst ['K'] true [(['o'], { toDict := true, enc := none, dec := some 22 }, .int 7)]) := by rfl
+
+/-! non-vacuity of `primOkH`: a written field with the constant hook 12 on an instance value, a written field whose
+    hook answers None (hook 14), a hidden field carrying a hook that would answer a non-primitive -/
+def exHooks : HEnv
+  | 12, _ => .ok (.str ['H'])
+  | 14, _ => .ok .none
+  | _, v => .ok (.tuple [v])       -- answers a non-primitive
+
+def exHooked : Val :=
+  .inst ['K'] false
+    [(['a'], { toDict := true, enc := some 12, dec := none }, .inst ['P'] true [(['z'], FMeta.plain, .path ['p'])]),
+     (['b'], { toDict := true, enc := some 14, dec := none }, .set [.int 1]),
+     (['c'], { toDict := false, enc := some 99, dec := none }, .tuple [.int 1]),
+     (['d'], FMeta.plain, .dict false [(.enum ['C'] ['R'], .tuple [.path ['q']])])]
+
+example : primOkH exHooks exHooked = true := by rfl
+example : primOk exHooked = false := by rfl
+example : toDict exHooks exHooked =
+    .ok (.dict false [(.str ['a'], .str ['H']), (.str ['b'], .none), (.str ['d'], .dict false [(.str ['R'], .list [.str ['q']])])]) := by rfl
+example : hookFreeF [(['x'], FMeta.plain, .list [.inst ['P'] true [(['z'], FMeta.plain, .int 1)]])] = true := by rfl
+example : decHookFree (.dc ['K'] true [(['o'], FMeta.plain, none, .union [.list .int, .noneT])]) = true := by rfl
 
 /-! non-vacuity -/
 example : primOk (.inst ['K'] false [(['a'], FMeta.plain, .tuple [.set [.path ['p']], .enum ['C'] ['R']]),
